@@ -973,7 +973,7 @@ class Super:
                 bind = {i + 1: a for i, a in enumerate(args) if i < tf.arg_count}
                 sub = Ctx(-1, tf, ctx, None, bind, [], [], ctx.depth + 1, "value")
                 v = self.resolve_local(sub, 0)
-                if not _mentions(v, ("phi", "undef")):
+                if not _mentions_sub(v):
                     return v
             if np in PURE_GETTERS:
                 if self.getter_sites:
@@ -1269,7 +1269,51 @@ class Super:
         return res
 
 
+def fresh_literals_at(S, b, exclude=("ui", "u")):
+    """Literals holding at b that were established *after* the last call that can reach user code: a literal on
+    object/collector state is killed by such a call (user code may do anything through the public API)."""
+    res = set()
+    dom = S.dominators(exclude)
+    if b.idx not in dom:
+        return res
+    mayu = [m for m in S.mayU_nodes() if m is not b]
+    reach_to_b = None
+    for i in dom[b.idx]:
+        n = S.nodes[i]
+        if n.kind != "switch" or n is b:
+            continue
+        e = S.switch_expr(n)
+        if isinstance(e, tuple) and e and e[0] == "const":
+            continue
+        for (s, lab) in n.succ:
+            if not isinstance(lab, tuple):
+                continue
+            if not S.edge_dominates(n, lambda s2, l2, lab=lab: l2 == lab, b, exclude):
+                continue
+            # any may-U node strictly between this edge and b?
+            after = S.reachable(s, exclude=exclude)
+            stale = False
+            for m in mayu:
+                if m.idx in after and b.idx in S.reachable(m, exclude=exclude):
+                    stale = True
+                    break
+            if stale:
+                continue
+            for lit in normalise_literal(e, lab[1], n.term):
+                res.add(lit)
+    return res
+
+
 PURE_GETTERS = set()  # filled by rules.common with the crate's getter table
+
+
+def _mentions_sub(e):
+    """phi/undef nodes that belong to a value-only sub context (id -1): the summary would be meaningless."""
+    if isinstance(e, tuple):
+        if e and e[0] in ("phi", "undef", "var") and len(e) > 1 and e[1] == -1:
+            return True
+        return any(_mentions_sub(x) for x in e)
+    return False
 
 
 def _mentions(e, heads):
